@@ -729,6 +729,42 @@ def r_tracker_ship(e, R):
                 pr.short, norm(u.ast)[:70], "the child re-executes the user's main module while its tracker singleton still has no fd: a resource "
                 "created at import time starts a private tracker for this child (a second tracker in the tree, which sweeps at this child's exit); "
                 f"installed later: {[norm(i.ast)[:50] for i in late]}", e.loc(pr, u.ast))
+    # polarity of the install gate: when the preparation data carries the tracker entry, both fields are installed
+    from . import scenario as SC
+    keys = {k[0] for k in written}
+
+    def has_key(val, key):
+        def ev(x):
+            if isinstance(x, ast.Compare) and len(x.ops) == 1 and isinstance(x.ops[0], (ast.In, ast.NotIn)) and isinstance(x.left, ast.Constant) and x.left.value == key:
+                return val == isinstance(x.ops[0], ast.In)
+            return None
+        return ev
+    loky_inst = [n for n in installs if any(x[0] == "obj" and x[2] == f"{RT}:ResourceTracker" for x in e.pt.ev(pr, n.ast.targets[0].value))]
+    for key in sorted(k for k in keys if k in {kk[0] for kk, v in written.items()}):
+        mine = [n for n in installs if isinstance(n.ast.value, ast.Subscript) and isinstance(n.ast.value.value, ast.Subscript)
+                and isinstance(n.ast.value.value.slice, ast.Constant) and n.ast.value.value.slice.value == key]
+        for attr_ in ("_fd", "_pid"):
+            tg = [n for n in mine if n.ast.targets[0].attr == attr_]
+            okE = SC.Facts([], [has_key(True, key)]).edge_ok()
+            arm = lambda n, m, l: okE(n, m, l) and not (n.kind == "test" and static_truth(n.ast) is not None and (l == "T") != static_truth(n.ast) and l in ("T", "F"))
+            esc = pg.escape_path(pg.entry, lambda n: n in tg, use_exc=False, edge_ok=arm)
+            R.check(bool(tg) and esc is None, "R-TRACKER-SHIP", f"prepare: when the data carries {key!r}, the tracker's {attr_} is installed on every path", pr.short,
+                    f"{key} -> {attr_}", f"the child receives the parent's tracker ({key!r}) but does not install its {attr_}: it starts a tracker of its own "
+                    "(a second tracker in the tree) or talks to a tracker it believes dead", e.loc(pr, pr.node), pg.fmt_path(esc) if esc else None)
+        okN = SC.Facts([], [has_key(False, key)]).edge_ok()
+        bad = pg.find_path(pg.entry, lambda n: n in mine, use_exc=False, edge_ok=okN)
+        R.check(bad is None, "R-TRACKER-SHIP", f"prepare: without {key!r} in the data nothing is installed (no KeyError in the child's start-up)", pr.short, key,
+                "prepare() reads a tracker entry that is not in the data: the child dies at start-up", e.loc(pr, pr.node))
+    # the parent writes the tracker entry unconditionally (both fields on this platform)
+    gg = e.cfg(gp)
+    wr_nodes = [n for n in gg.nodes if n.kind == "stmt" and isinstance(n.ast, ast.Assign) and isinstance(n.ast.targets[0], ast.Subscript)
+                and any(isinstance(x, ast.Constant) and x.value == "tracker_args" for x in ast.walk(n.ast.targets[0]))]
+    arm2 = lambda n, m, l: not (n.kind == "test" and l in ("T", "F") and static_truth(n.ast) is not None and (l == "T") != static_truth(n.ast))
+    for want in ("_pid", "_fd"):
+        tg = [n for n in wr_nodes if any(isinstance(x, ast.Attribute) and x.attr == want for x in ast.walk(n.ast.value))]
+        esc = gg.escape_path(gg.entry, lambda n: n in tg, use_exc=False, edge_ok=arm2)
+        R.check(bool(tg) and esc is None, "R-TRACKER-SHIP", f"get_preparation_data: the tracker's {want} is written on every path (this platform's arm)", gp.short,
+                f"d['tracker_args'][...] = _resource_tracker.{want}", f"the tracker's {want} is not always shipped to the child", e.loc(gp, gp.node))
     # the child's entry point prepares before it unpickles the process object
     for mq in (f"{POPEN}:<module>", "loky.backend.popen_loky_win32:main"):  # the posix entry point is module-level code
         mf = e.prog.funcs.get(mq)
